@@ -331,7 +331,7 @@ def obligations(tier, seed):
     for k in range(8):
         p = {"kind": k}
         if tier == "quick":
-            p["sis"] = [0, 2, 5, 10, 13, 17]
+            p["sis"] = [0, 2, 5, 10, 13, 15, 17]      # 15 = the empty slice
         obs.append({"name": "step-fields/kind=%d" % k, "fn": "ob_step", "P": p, "timeout": T})
         docs = [0] if tier == "quick" else [0, 1]
         sis = ([2, 5, 13, 17] if tier == "quick" else [0, 2, 5, 7, 10, 13, 17, 18]) if k < 2 else [0]      # 17, 18: zero-size, non-empty
